@@ -419,7 +419,7 @@ func (g *G) classes() []genClass {
 	case "C07":
 		return []genClass{{7, inval}, {2, urls}, {2, func(g *G, id string) *History { return g.genInvalRace(id) }}}
 	case "C08":
-		return []genClass{{4, vary}, {2, grid}, {3, chain}, {2, inval}, {1, swrInval}}
+		return []genClass{{4, vary}, {2, grid}, {3, chain}, {2, inval}, {1, swrInval}, {1, func(g *G, id string) *History { return g.genRevalRace(id) }}}
 	case "C19":
 		return []genClass{{3, vary}, {1, inval}, {2, func(g *G, id string) *History { return g.genRepeat(id) }}, {1, swrInval}}
 	case "C16":
